@@ -36,16 +36,11 @@ Definition lookup (fs : fsys) (P : list N) : option (list N) :=
   | _ => if is_file_at fs (cwd_str fs ++ P ++ DOT_HTML) then Some (P ++ DOT_HTML) else None
   end.
 
-(* known tree-side classes (observed): an index.html that is not a regular file; a non-file named P.html;
-   a request that already ends in ".html" *)
+(* the one remaining tree-side class (observed): a request that already ends in ".html" is never retried with a second ".html" *)
 Definition KF_C02_tree (fs : fsys) (P : list N) : bool :=
   match metadata fs (cwd_str fs ++ P) with
-  | Some KDir => match dir_index P with
-                 | SOk di => can_open fs (cwd_str fs ++ P ++ di) && negb (is_file_at fs (cwd_str fs ++ P ++ di))
-                 | _ => false end
   | Some _ => false
-  | None => (can_open fs (cwd_str fs ++ P ++ DOT_HTML) && negb (is_file_at fs (cwd_str fs ++ P ++ DOT_HTML)))
-            || ends_with (cwd_str fs ++ P) DOT_HTML
+  | None => ends_with (cwd_str fs ++ P) DOT_HTML
   end.
 
 Lemma can_open_metadata fs p : can_open fs p = match metadata fs p with Some _ => true | None => false end.
@@ -57,14 +52,17 @@ Lemma gcrl_path_only fs a b' rv : path_or_panic a = path_or_panic b' ->
   get_content_range_list fs a rv = get_content_range_list fs b' rv.
 Proof. intro E. unfold get_content_range_list. rewrite E. reflexivity. Qed.
 
-Definition GETr (u : list N) := mkR GET u [72;84;84;80;47;49;46;49] [] [].
+Definition GETh (u : list N) (hs : list header) := mkR GET u [72;84;84;80;47;49;46;49] hs [].
+Definition GETr (u : list N) := GETh u [].
+(* the Range value the reader is given: the request's Range header, else the whole file *)
+Definition range_value (r : request) : list N := match get_header r RANGE_NAME with Some h => hvalue h | None => DEFAULT_RANGE end.
 
-Theorem C02_lookup_refines fs u P :
+Theorem C02_lookup_refines_gen fs u hs P :
   path_or_panic u = SOk P -> clean_path P -> has_dotdot P = false -> u <> [47] -> KF_C02_tree fs P = false ->
   match lookup fs P with
-  | Some Q => is_matching fs (GETr u) = SOk true /\
-              process_static fs (GETr u) = get_content_range_list fs Q DEFAULT_RANGE
-  | None => is_matching fs (GETr u) = SOk false
+  | Some Q => is_matching fs (GETh u hs) = SOk true /\
+              process_static fs (GETh u hs) = get_content_range_list fs Q (range_value (GETh u hs))
+  | None => is_matching fs (GETh u hs) = SOk false
   end.
 Proof.
   intros EP Hcl Hdd Hu Hk.
@@ -76,20 +74,32 @@ Proof.
     - apply (f_equal (@rev N)) in Er. rewrite rev_involutive in Er. discriminate.
     - destruct (N.eqb c 47); eauto. }
   destruct Hdi as [di [Edi Hdi]].
-  unfold lookup, KF_C02_tree in *. unfold is_matching, process_static. cbn [method uri GETr].
-  rewrite EP. rewrite Hdd. rewrite Edi in *. unfold get_header. cbn [headers GETr find].
-  unfold can_open, is_file_at in *. rewrite <- ?app_assoc in *.
+  unfold lookup, KF_C02_tree in *. unfold is_matching, process_static, range_value. cbn [method uri GETh].
+  rewrite EP. rewrite Hdd. rewrite Edi in *. generalize (match get_header (GETh u hs) RANGE_NAME with Some h => hvalue h | None => DEFAULT_RANGE end) as rv. intro rv.
+  unfold can_open, is_file_at, is_reg in *. rewrite <- ?app_assoc in *.
   destruct (metadata fs (cwd_str fs ++ P)) as [[| |]|] eqn:M0.
   - (* regular file *) rewrite Hmm. split; [reflexivity|]. apply gcrl_path_only. rewrite EP. symmetry. apply reparse_clean. split; [eauto|auto].
   - (* directory *)
-    destruct (metadata fs (cwd_str fs ++ P ++ di)) as [[| |]|] eqn:M1; cbn [andb negb orb] in *; try discriminate.
-    + rewrite Hmm. split; reflexivity.
-    + reflexivity.
+    destruct (metadata fs (cwd_str fs ++ P ++ di)) as [[| |]|] eqn:M1; cbn [andb negb orb] in *; try reflexivity.
+    rewrite Hmm. split; reflexivity.
   - exfalso. eapply metadata_not_link; eauto.
   - (* nothing at P: the .html fallback *)
-    apply orb_false_iff in Hk as [Hk He]. rewrite He.
-    destruct (metadata fs (cwd_str fs ++ P ++ DOT_HTML)) as [[| |]|] eqn:M2; cbn [andb negb orb] in *; try discriminate.
-    + rewrite Hmm. split; reflexivity.
-    + reflexivity.
+    rewrite Hk.
+    destruct (metadata fs (cwd_str fs ++ P ++ DOT_HTML)) as [[| |]|] eqn:M2; cbn [andb negb orb] in *; try reflexivity.
+    rewrite Hmm. split; reflexivity.
 Qed.
-Print Assumptions C02_lookup_refines.
+Corollary C02_lookup_refines fs u P :
+  path_or_panic u = SOk P -> clean_path P -> has_dotdot P = false -> u <> [47] -> KF_C02_tree fs P = false ->
+  match lookup fs P with
+  | Some Q => is_matching fs (GETr u) = SOk true /\
+              process_static fs (GETr u) = get_content_range_list fs Q DEFAULT_RANGE
+  | None => is_matching fs (GETr u) = SOk false
+  end.
+Proof. exact (C02_lookup_refines_gen fs u [] P). Qed.
+
+(* the reader on a clean path naming a regular file that is not itself a symlink *)
+Lemma gcrl_regular fs Q rv L : clean_path Q -> has_dotdot Q = false ->
+  metadata fs (cwd_str fs ++ Q) = Some KFile -> is_symlink fs (cwd_str fs ++ Q) = Some false -> file_len fs (cwd_str fs ++ Q) = Some L ->
+  get_content_range_list fs Q rv = parse_content_range fs false (cwd_str fs ++ Q) L rv.
+Proof. intros Hc Hd Hm Hs Hl. unfold get_content_range_list. rewrite (reparse_clean Q Hc), Hd, Hm, Hs, Hl. reflexivity. Qed.
+
